@@ -1,4 +1,5 @@
 import MitmVerif.Model.C24
+import MitmVerif.Model.C24_Route
 import Driver.Proto
 open MitmVerif Driver MitmVerif.C24
 
@@ -56,8 +57,49 @@ def runLine (old : Bool) (auth : Bool) (modes : List Mode) (evs : List (Nat × E
   let tl := (List.range modes.length).filter (fun c => σ.tunneled.contains c)
   pure (" ".intercalate outs ++ " | " ++ (if tl.isEmpty then "-" else ",".intercalate (tl.map toString)))
 
+open MitmVerif.C24.Route in
+def parseREv (s : String) : Option (Nat × REv) :=
+  match s.splitOn "/" with
+  | [c, "req", h, p, t] => do
+    let c ← c.toNat?; let h ← h.toNat?; let p ← p.toNat?
+    if t ≠ "0" ∧ t ≠ "1" then none else pure (c, .req h p (t = "1"))
+  | [c, "connect", h, p] => do
+    let c ← c.toNat?; let h ← h.toNat?; let p ← p.toNat?
+    pure (c, .connect h p)
+  | _ => none
+
+open MitmVerif.C24.Route in
+def showConn (c : UpConn) (fresh : Bool) : String :=
+  "{" ++ toString c.host ++ ":" ++ toString c.port ++ ":" ++ (if c.tls then "1" else "0") ++ ":" ++
+    (match c.sni with | some h => toString h | none => "-") ++ ":" ++ (if c.via then "1" else "0") ++ ":" ++
+    toString c.idx ++ ":" ++ (if fresh then "1" else "0") ++ "}"
+
+open MitmVerif.C24.Route in
+def showROut (m : Mode) (o : ROut) : String :=
+  let ws := match o.conn with
+    | some c => o.writes.map (fun w => showWrite ⟨partyOf m c w, w.form, c.tls && w.form == .request, w.cred⟩)
+    | none => []
+  let body := (match o.conn with | some c => showConn c o.fresh | none => "") ++ "[" ++ "+".intercalate ws ++ "]"
+  match o.kind with
+  | .response => "R" ++ body
+  | .tunnel => "T" ++ body
+  | .invalid => "E" ++ body
+  | .ignored => "I" ++ body
+
+open MitmVerif.C24.Route in
+def routeLine (auth : Bool) (modes : List Mode) (evs : List (Nat × REv)) : Option String := do
+  let modeOf : Nat → Mode := fun c => modes.getD c .regular
+  if evs.any (fun x => x.1 ≥ modes.length) then none
+  let outs := rrun auth modeOf (RState.init modeOf) evs
+  pure (" ".intercalate (outs.map (fun x => showROut (modeOf x.1) x.2)))
+
 def stepLine (line : String) : String :=
   match fields line with
+  | "route" :: auth :: modes :: evs =>
+    if auth ≠ "0" ∧ auth ≠ "1" then "bad-op" else
+    match (modes.splitOn ",").mapM parseMode, evs.mapM parseREv with
+    | some ms, some es => (routeLine (auth = "1") ms es).getD "bad-op"
+    | _, _ => "bad-op"
   | op :: auth :: modes :: evs =>
     if op ≠ "run" ∧ op ≠ "runold" then "bad-op" else
     if auth ≠ "0" ∧ auth ≠ "1" then "bad-op" else
